@@ -1587,7 +1587,21 @@ class Interp:
             finally:
                 self.frame['mod'] = saved
                 self.const_busy.discard(p)
+        if p.startswith(('naga::', 'wgpu::')) and p.rsplit('::', 1)[-1].isupper() and p.count('::') == 1:
+            lc = self.library_consts()
+            if p in lc:
+                return self.lit(lc[p])
         return ('path', p)
+
+    def library_consts(self):
+        """public literal constants of the pinned naga / wgpu-types sources (Engine D)"""
+        if getattr(self, '_libconsts', None) is None:
+            try:
+                import schema
+                self._libconsts = dict(getattr(schema.load(), 'consts', {}) or {})
+            except Exception:
+                self._libconsts = {}
+        return self._libconsts
 
     def e_Lit(self, e, env, **kw):
         return self.lit(e)
